@@ -45,7 +45,7 @@ theorem mod_ne_of_window {a x y N : Nat} (h1 : a ≤ x) (h2 : x < y) (h3 : y < a
 
 /-- Program points at which the thread holds the spin flag. -/
 def holder : Loc → Prop
-  | .pCheck _ | .pWrite _ _ | .pPublish _ _ | .cLen | .cRead | .cRelease _ => True
+  | .pCheck _ | .pWrite _ _ | .pPublish _ _ | .cLenT | .cLen | .cRead | .cRelease _ => True
   | _ => False
 
 instance : DecidablePred holder := fun l => by
@@ -88,9 +88,9 @@ theorem inv_setThr_free (s : St) (t : Nat) (l : Loc) (h : Inv s)
   · intro u hu; exact cR u (by grind [holder])
   · intro u v hu; exact cRel u v (by grind [holder])
 
-/-- Acquiring the free flag (to `pCheck` or `cLen`). -/
+/-- Acquiring the free flag (to `pCheck` or `cLenT`). -/
 theorem inv_acquire (s : St) (t : Nat) (l : Loc) (h : Inv s) (hl : s.locked = false)
-    (h2 : (∃ v, l = .pCheck v) ∨ l = .cLen) : Inv (setThr { s with locked := true } t l) := by
+    (h2 : (∃ v, l = .pCheck v) ∨ l = .cLenT) : Inv (setThr { s with locked := true } t l) := by
   obtain ⟨npos, hht, cap, lockIff, mutex, accLen, bufAcc, pW, pP, cR, cRel, delIdx, delVal⟩ := h
   have nobody : ∀ u, ¬ holder (s.thr u) := fun u hu => by
     have := lockIff.2 ⟨u, hu⟩; simp [hl] at this
@@ -173,6 +173,9 @@ theorem step_inv_cUnlocked (s : St) (t v : Nat) (h : Inv s) (ht : s.thr t = .cUn
 theorem step_inv_lLen (s : St) (t : Nat) (h : Inv s) (ht : s.thr t = .lLen) : Inv (step s t) := by
   simp only [step, ht]; exact inv_setThr_free s t _ h (by simp [ht, holder]) (by simp [holder])
 
+theorem step_inv_lLenH (s : St) (t tl : Nat) (h : Inv s) (ht : s.thr t = .lLenH tl) : Inv (step s t) := by
+  simp only [step, ht]; exact inv_setThr_free s t _ h (by simp [ht, holder]) (by simp [holder])
+
 /-- Moving the holder to another holder point; obligations about the new point are passed explicitly. -/
 theorem inv_holder_move (s : St) (t : Nat) (l : Loc) (h : Inv s)
     (h1 : holder (s.thr t)) (h2 : holder l)
@@ -214,6 +217,10 @@ theorem step_inv_pCheck (s : St) (t v : Nat) (h : Inv s) (ht : s.thr t = .pCheck
   split
   · apply inv_holder_move s t _ h (by simp [ht, holder]) (by simp [holder]) <;> grind
   · exact inv_release s t _ h (by simp [ht, holder]) (by simp [holder])
+
+theorem step_inv_cLenT (s : St) (t : Nat) (h : Inv s) (ht : s.thr t = .cLenT) : Inv (step s t) := by
+  simp only [step, ht]
+  apply inv_holder_move s t _ h (by simp [ht, holder]) (by simp [holder]) <;> grind
 
 theorem step_inv_cLen (s : St) (t : Nat) (h : Inv s) (ht : s.thr t = .cLen) : Inv (step s t) := by
   simp only [step, ht]
@@ -307,12 +314,14 @@ theorem inv_step (s : St) (t : Nat) (h : Inv s) : Inv (step s t) := by
   | pUnlocked len => exact step_inv_pUnlocked s t len h ht
   | cLock => exact step_inv_cLock s t h ht
   | cSpin => exact step_inv_cSpin s t h ht
+  | cLenT => exact step_inv_cLenT s t h ht
   | cLen => exact step_inv_cLen s t h ht
   | cEmptyUnlocked => exact step_inv_cEmptyUnlocked s t h ht
   | cRead => exact step_inv_cRead s t h ht
   | cRelease v => exact step_inv_cRelease s t v h ht
   | cUnlocked v => exact step_inv_cUnlocked s t v h ht
   | lLen => exact step_inv_lLen s t h ht
+  | lLenH tl => exact step_inv_lLenH s t tl h ht
 
 theorem inv_apply (s : St) (a : Act) (h : Inv s) : Inv (apply s a) := by
   cases a with
